@@ -121,3 +121,34 @@ func VerifC15_Twin() {
 	zzCheckBytecode(bc, err, 1, "twin-must-fail")
 	zzverif.Reach("twin")
 }
+
+// O3: a request served from the cache while another goroutine's executions
+// push the route over the hot-path threshold and recompile it. On every
+// explored schedule the code handed out must still mean the route, and the
+// accesses to the shared compilation unit must be ordered.
+func VerifC15_ConcurrentRecompile() {
+	j := NewJITCompilerWithConfig(2, 0)
+	bc0, err0 := j.CompileRoute("r", zzDef(0))
+	zzCheckBytecode(bc0, err0, 0, "first CompileRoute")
+	done := make(chan struct{}, 2)
+	var bcA, bcB []byte
+	var errA, errB error
+	go func() {
+		zzverif.Perturb()
+		bcA, errA = j.CompileRoute("r", zzDef(0))
+		done <- struct{}{}
+	}()
+	go func() {
+		zzverif.Perturb()
+		for k := 0; k < 3; k++ {
+			j.RecordExecution("r", time.Duration(10))
+		}
+		bcB, errB = j.CompileRoute("r", zzDef(0))
+		done <- struct{}{}
+	}()
+	<-done
+	<-done
+	zzCheckBytecode(bcA, errA, 0, "CompileRoute racing a recompilation")
+	zzCheckBytecode(bcB, errB, 0, "CompileRoute after executions")
+	zzverif.Reach("concurrent")
+}
